@@ -58,7 +58,23 @@ fn gen_value(rng: &mut StdRng, big: bool) -> Vec<u8> {
         2 => b"\r\n".to_vec(),
         3 => b"hello\r\nworld\n\r".to_vec(),
         4 => (0..rng.gen_range(2..64)).map(|_| rng.gen::<u8>()).collect(),
-        5 => vec![b'a'; rng.gen_range(100..5000)],
+        5 => {
+            // very compressible, from tiny to far beyond any fixed buffer: sizes around the powers of two that matter
+            let n = match rng.gen_range(0..8) {
+                0 => rng.gen_range(100..5000),
+                1 => 16384,
+                2 => 16385,
+                3 => rng.gen_range(16386..70000),
+                4 => 131072 + rng.gen_range(0..3),
+                5 => rng.gen_range(200_000..400_000),
+                _ => rng.gen_range(5000..16384),
+            };
+            match rng.gen_range(0..3) {
+                0 => vec![b'a'; n],
+                1 => vec![0u8; n],
+                _ => b"the same line again and again\n".iter().cycle().take(n).cloned().collect(),
+            }
+        }
         6 => (0..rng.gen_range(500..3000)).map(|_| rng.gen::<u8>()).collect(), // incompressible
         _ => {
             if big {
@@ -173,4 +189,63 @@ pub async fn run(out: &mut dyn Write, seed: u64, count: usize, big: bool) {
             }
         }
     }
+    // "through any proxy of the cluster": two proxies, each owning half of the slots, with and without active redirection;
+    // a value written through one proxy is read through the other (following MOVED like a cluster client)
+    for (active, redirect, limit) in [("off", false, 0usize), ("limit4", true, 4), ("unlimited", true, 0)] {
+        let net = Net::new();
+        const P1: &str = "127.0.0.1:7000";
+        const P2: &str = "127.0.0.2:7000";
+        const N1: &str = "127.0.0.1:6000";
+        const N2: &str = "127.0.0.2:6000";
+        net.add_redis(N1);
+        net.add_redis(N2);
+        for p in [P1, P2] {
+            let mut cfg = Net::proxy_config(p, redirect, 1, ClusterNodesVersion::V2);
+            // max_redirections > 0: forwarded commands travel wrapped in UMFORWARD; 0 (no limit): they travel as they are
+            cfg.max_redirections = std::num::NonZeroUsize::new(limit);
+            net.start_proxy(p, cfg);
+        }
+        let mut ep = 1u64;
+        for strategy in ["set_get_only", "allow_all"] {
+            ep += 1;
+            for (me, node, lo, other_p, other_n, olo) in [(P1, N1, "0-8191", P2, N2, "8192-16383"), (P2, N2, "8192-16383", P1, N1, "0-8191")] {
+                let cmd: Vec<Vec<u8>> = ["UMCTL", "SETCLUSTER", "v2", &ep.to_string(), "NOFLAG", "cz", node, "1", lo, "PEER", other_p, "1", olo,
+                                         "CONFIG", "compression_strategy", strategy].iter().map(|s| s.as_bytes().to_vec()).collect();
+                let _ = net.proxy_exec(me, cmd).await;
+                let _ = other_n;
+            }
+            for i in 0..(count / 4).max(6) {
+                let v = gen_value(&mut rng, false);
+                let key = format!("x{}", i).into_bytes();
+                let (wp, rp) = if i % 2 == 0 { (P1, P2) } else { (P2, P1) };
+                let wr = exec_following_moved(&net, wp, vec![b("SET"), key.clone(), v.clone()]).await;
+                let rd_other = exec_following_moved(&net, rp, vec![b("GET"), key.clone()]).await;
+                let rd_same = exec_following_moved(&net, wp, vec![b("GET"), key.clone()]).await;
+                let mg = exec_following_moved(&net, rp, vec![b("MGET"), key.clone()]).await;
+                writeln!(out, "{}", json!({
+                    "kind": "cross", "strategy": strategy, "active": active, "v": fp(&v), "wreply": reply_fp(&wr),
+                    "get_other": reply_fp(&rd_other), "get_same": reply_fp(&rd_same), "mget_other": reply_fp(&mg),
+                })).ok();
+            }
+        }
+    }
+}
+
+/// send a command to `start`; on MOVED re-send it to the named proxy (at most 3 times)
+async fn exec_following_moved(net: &Net, start: &str, cmd: Vec<Vec<u8>>) -> RespVec {
+    let mut at = start.to_string();
+    for _ in 0..4 {
+        let r = net.proxy_exec(&at, cmd.clone()).await;
+        if let Resp::Error(e) = &r {
+            let s = String::from_utf8_lossy(e).to_string();
+            if let Some(rest) = s.strip_prefix("MOVED ") {
+                if let Some(addr) = rest.split(' ').nth(1) {
+                    at = addr.trim().to_string();
+                    continue;
+                }
+            }
+        }
+        return r;
+    }
+    Resp::Error(b"too many redirections".to_vec())
 }
